@@ -28,8 +28,8 @@ SHARDS = {"quick": 1, "thorough": 1}
 RULE = (
     "Complete enumeration of the finite space (dtype x category x backend): every concrete numpy scalar type "
     "(np.sctypeDict incl. longlong/ulonglong/intc/longdouble/clongdouble, str_, bytes_, void, object_, datetime64, "
-    "timedelta64), all 16 ml_dtypes types, key dtypes of the 3 PRNG impls, 6 structured dtypes (two of equal width, one aligned, one with upper-case codes) and raw V2; 34 exported classes "
-    "+ 16 user categories (strings, regexes, mixed, case-sensitive names, one per structured dtype); backends numpy, jax.Array, jax tracer (eval_shape and jit), "
+    "timedelta64), all 16 ml_dtypes types, key dtypes of the 3 PRNG impls, 11 structured dtypes (two of equal width, one aligned, one with upper-case codes, nested-field and sub-array-field look-alikes of equal size) and raw V2; 34 exported classes "
+    "+ 21 user categories (strings, regexes, mixed, case-sensitive names, one per structured dtype); backends numpy, jax.Array, jax tracer (eval_shape and jit), "
     "key arrays, duck(str dtype), duck(torch-style repr 'torch.<name>' and mlx-style repr 'mlx.core.<name>'), duck(numpy dtype), TensorFlow tensors. A backend is "
     "crossed with a dtype when it can actually produce an array of it (measured). Every triple is non-trivial; distinct by "
     "(canonical dtype name, source type, category, backend)."
@@ -51,6 +51,12 @@ STRUCTS = {
     "struct2": np.dtype([("x", np.float32), ("y", np.float32, (2,))]),
     "structUpper": np.dtype([("Name", "S3"), ("When", "M8[s]"), ("u", "U2")]),
     "structAligned": np.dtype({"names": ["a", "b"], "formats": ["u1", "f4"]}, align=True),
+    # same field names and byte sizes, differing only inside a nested structured field / in the base type of a sub-array field
+    "structNestA": np.dtype([("h", [("x", "i4"), ("y", "f4")]), ("t", "u1")]),
+    "structNestB": np.dtype([("h", [("p", "f8")]), ("t", "u1")]),
+    "structSubA": np.dtype([("v", "i4", (2,))]),
+    "structSubB": np.dtype([("v", "f4", (2,))]),
+    "structSubC": np.dtype([("v", "i2", (4,))]),
 }
 
 
